@@ -6,7 +6,7 @@ import inproc, harness
 ID = "C25"
 LEVEL = "exploration"
 RULE = ("rapidcheck (16 processes, seeds derived from VERIF_SEED) generates sequences of {symbol(alphabet 2..16, one of 1-8 CDF tables), bool via the 8-bit probability API, "
-        "bool via the direct Q15 API, literal(1..24 bits)} of length 0..5000 with CDFs built valid by construction (strictly decreasing inverse CDF ending in 0 + counter slot; shapes: "
+        "bool via the direct Q15 API, literal(1..24 bits)} of length 0..5000 (one case in ~120: 24000..70000 operations of mostly 24-bit literals, i.e. an output beyond the coder's initial 62025-byte buffer) with CDFs built valid by construction (strictly decreasing inverse CDF ending in 0 + counter slot; shapes: "
         "near-uniform, one symbol ~32767/32768, last symbol dominant, random widths >= 1) and CDF adaptation on/off; plus an exhaustive sweep of all sequences of length 0..4 over "
         "alphabets 2..4 x 6 extreme CDFs x adaptation on/off. The encoder's real range coder (EbBitstreamUnit.c via aom_write_symbol/aom_write/aom_write_literal) writes; the decoder's "
         "real reader (EbDecBitReader.h / EbDecBitstreamUnit.h) reads from a buffer announcing exactly the emitted byte count. Oracle: the read sequence equals the written one, writer-side "
@@ -62,7 +62,7 @@ def interpret(ctx, job, res):
     if (not j.get("generated_ok") or j.get("exhaustive_failures")) and not viol:
         viol.append(_viol_from("harness reported failure without a failure file", None))
     return dict(evaluations=j["cases"] + j["exhaustive_cases"], keys=j.get("keys", []), samples=j.get("samples", [])[:1],
-                classes=dict(extreme_cdf=j["extreme_cdf"], carry_runs=j["carry_runs"], long_seqs=j["long_seqs"], generated=j["cases"]),
+                classes=dict(extreme_cdf=j["extreme_cdf"], carry_runs=j["carry_runs"], long_seqs=j["long_seqs"], beyond_initial_output_buffer=j.get("beyond_initial_buffer", 0), generated=j["cases"]),
                 extra=dict(exhaustive_small_cases_per_process=j["exhaustive_cases"]), violations=viol)
 
 
